@@ -146,10 +146,45 @@ def r5(ctx, rid):
         raise core.AnchorLost('IndexStruct::get_latest: %d' % n)
 
 
+def r6(ctx, rid):
+    """`the most recently created blob wins ties`: creation order is the numeric blob id.  Wherever the storage orders a list of
+    opened blobs (start-up), the ordering key is Blob::id and nothing else - file names compare lexicographically
+    (`test.10.blob` < `test.2.blob`), creation times of files change with copies and restores"""
+    prog = ctx.prog
+    n = 0
+    for f in prog.fns.values():
+        if f.file != 'src/storage/core.rs':
+            continue
+        for c in f.calls:
+            if c.bb not in f.reachable() or not c.name.startswith('sort') or 'blob::core::Blob<' not in c.full:
+                continue
+            n += 1
+            key = 'opened-blobs-ordered-by-id|%s' % prog.fns[f.id].root
+            names = set()
+            for a in c.args[1:]:
+                k = core.op_const(a)
+                l = op_local(a)
+                if k and 'fn' in k:
+                    names.add((k['fn'].get('res') or k['fn'].get('path') or '').split('::')[-1])
+                elif l is not None and f.locals[l].get('h') == 'closure':
+                    for g in prog.family(f.locals[l]['a'][0]):
+                        names |= {x.name for x in prog.fns[g].calls if x.bb in prog.fns[g].reachable() and not x.from_expansion}
+                elif l is not None and f.locals[l].get('h') == 'fndef':
+                    names.add(f.locals[l]['a'][0].split('::')[-1])
+            extra = names - {'id', 'cmp', 'partial_cmp', 'reverse', 'then', 'then_with', 'deref', 'borrow', 'as_ref', 'clone'}
+            if 'id' in names and not extra:
+                ctx.ok(rid, key, c.where(), 'sort key = Blob::id')
+            else:
+                ctx.bad(rid, key, c.where(), 'the opened blobs are ordered by %s instead of the numeric blob id: with 11 or more blobs (or another name prefix) an older blob ranks as the most recently created one and wins timestamp ties / becomes the active blob' % (sorted(extra) or sorted(names) or 'their natural order'))
+    if n < 1:
+        raise core.AnchorLost('sort of opened blobs in src/storage/core.rs: %d' % n)
+
+
 RULES = [
     Rule('C01.R1', 'equal timestamps: the in-memory insertion position is behind every record with the same timestamp (C02.U10 instance)', r1, 1),
     Rule('C01.R2', 'the point lookup consults every candidate blob before it returns Ok (C02.U6 instance)', r2, 1),
     Rule('C01.R3', 'the cross-blob merge replaces the accumulated result only on a strictly greater timestamp (first-seen wins ties)', r3, 2),
     Rule('C01.R4', 'the merge sees the active blob first, then the closed blobs newest to oldest through an order-preserving stream', r4, 1),
+    Rule('C01.R6', 'opened blobs are ordered by their numeric id and nothing else', r6, 1),
     Rule('C01.R5', 'the in-memory latest-version lookup takes the last element of the ascending per-key vector', r5, 1),
 ]
